@@ -572,10 +572,10 @@ def run(rep):
     rep.assume('floats as reals', 'real wcs_helpers source as a private package copy')
     rep.kernel('K-points', functions=[F + ':WCSHelper.pix2sky', F + ':WCSHelper.sky2pix'], bounds='any pixel, ANY WCS (uninterpreted functions with the inverse axiom W^-1(W(p)) = p)',
                stubs=['astropy WCS.all_pix2world/all_world2pix -> uninterpreted functions, origin o means W_o(p) = W_0(p - o)'], outside=['wcslib projection code'])
-    st, res = explore(h_points(wh))
+    st, res = explore(h_points(wh), wall_s=300)
     rep.stats(st)
     handle(rep, res, 'K-points')
-    st, res = explore(h_two_helpers(wh))
+    st, res = explore(h_two_helpers(wh), wall_s=300)
     rep.stats(st)
     handle(rep, res, 'K-points', two=True)
     rep.end_kernel()
@@ -585,14 +585,15 @@ def run(rep):
                stubs=['WCS -> conformal-flat linear map', 'translate/gcd/bear -> first-order planar forms (the spherical ones are C17)'],
                assumes=['identities via sympy normalisation, z3 verdict on the residual; |sig| = 1'],
                outside=['projection distortion (the 1e-3 / 0.01 deg tolerances of the statement are that gap)', 'skewed CD matrices', 'psf maps'])
-    plans = [(h_vec(wh), dict(wall_s=600)), (h_ellipse(wh), dict(wall_s=900)), (h_psf(wh), dict(wall_s=600))]
+    wq = 1.0 if rep.tier == 'thorough' else 0.3      # the unchanged tree needs seconds; the budget only bounds edited code
+    plans = [(h_vec(wh), dict(wall_s=600 * wq)), (h_ellipse(wh), dict(wall_s=900 * wq)), (h_psf(wh), dict(wall_s=600 * wq))]
     for st, res in core.explore_many(plans, workers=3):
         rep.stats(st)
         handle(rep, res, 'K-vectors')
     rep.end_kernel()
     rep.kernel('K-psfmap', functions=[F + ':WCSHelper.get_psf_sky2sky'], bounds='psf maps of any shape (planes, 1..4096, 1..4096), any position of the map pixel (symbolic reals)',
                stubs=['psf map -> index recorder of symbolic shape', 'psf_sky2pix -> arbitrary map pixel'])
-    st, res = explore(h_psfmap(wh))
+    st, res = explore(h_psfmap(wh), wall_s=300)
     rep.stats(st)
     for r in res:
         for ob in r['obligations']:
